@@ -240,7 +240,7 @@ def check_program(env, prog, steps, hostile, label, ndata):
                 env.count("returned")
             env.count("purity_checks")
             if fingerprint(d) != fp:
-                env.violation({"kind": "input-mutated", "no_copy": kw["no_copy"]}, {**wit, "before": snapshot, "after": repr(d)[:400]})
+                env.violation({"kind": "input-mutated", "no_copy": kw["no_copy"]}, {**wit, "before": snapshot, "after": harness.safe_repr(d)[:400]})
         env.count("class_fp_checks")
         cfp2 = class_fp(prog)
         if cfp2 != cfp:
@@ -256,7 +256,7 @@ PROBE_TYPES = [
     "Annotated[int, schema(mult_of=0.5)]", "Annotated[float, schema(mult_of=0.1)]", "Annotated[Annotated[int, schema(mult_of=2)], schema(mult_of=3)]",
     "List[Annotated[int, schema(mult_of=0.25, min=0)]]", "Annotated[Any, schema(mult_of=0.5, min_len=1, min_items=1, min_props=1)]",
     "Annotated[Any, schema(unique=True)]", "Annotated[List[Any], schema(unique=True)]", "Tuple[Any, ...]", "Mapping[str, Any]",
-    "Annotated[Union[int, str, None], schema(min=0, max_len=2)]", "Dict[Annotated[str, schema(pattern='^a')], Any]",
+    "Annotated[Union[int, str, None], schema(min=0, max_len=2)]", "Dict[Annotated[str, schema(pattern='^a')], Any]", "re.Pattern", "List[str]", "Union[str, float]",
 ]
 
 
@@ -271,7 +271,7 @@ def check_probe_types(env, steps):
     sys.modules[mod.__name__] = mod
     exec(compile(PRELUDE, "<vfprobe>", "exec"), mod.__dict__)
     big = 10 ** 400
-    data = [None, True, 0, -1, 1.5, float("nan"), float("inf"), big, -big, "", "a", "12", [], [[]], [[1], [1]], [{}], [{"a": 1}, {"a": 1}], [1, "a", None, 2.5], [big, 1e308],
+    data = [None, True, 0, -1, 1.5, float("nan"), float("inf"), big, -big, 10 ** 5000, "a{99999999999999999999}", "", "a", "12", [], [[]], [[1], [1]], [{}], [{"a": 1}, {"a": 1}], [1, "a", None, 2.5], [big, 1e308],
             {}, {"a": []}, {"a": {"b": [1]}}, {1: 2}, {None: 1}, {(1, 2): 3}, [float("nan"), float("nan")], [0, -0.0, False], [[1, 2], [2, 1]], (1, 2), {1, 2}, b"x", object()]
     try:
         for i, expr in enumerate(PROBE_TYPES):
@@ -289,7 +289,7 @@ def check_probe_types(env, steps):
                         fp = fingerprint(d)
                         real = steps.run(om.value, d, 400_000)
                         env.count("probe_type_calls")
-                        env.case("probe", expr, coerce, no_copy, repr(d)[:80])
+                        env.case("probe", expr, coerce, no_copy, harness.safe_repr(d)[:80])
                         if real.kind == "exc":
                             env.violation({"kind": "exception", "exc": real.exc, "coerce": coerce, "site": real.site, "family": "probe-types"},
                                           {"program": PRELUDE + f"\nT = {expr}\n", "type": expr, "options": {"coerce": coerce, "no_copy": no_copy}, "datum": d, "observed": real.brief()})
